@@ -184,4 +184,29 @@ theorem nextAddresses_refines (pkEnc : Pub → Bytes) (hne : ∀ p, pkEnc p ≠ 
     rw [bget_insAll_pk br enc hbrlt _ pk hrange br i hbrlt (hrange i hi)]
     simp [hi, henc]
 
+/-- the counters of a represented record as `fetchChildNum` reads them -/
+theorem fetchChildNum_of_rep (pkEnc : Pub → Bytes) (r : Rec Priv Pub) (acct pk : Bucket) (hrep : RecRep pkEnc r acct pk) :
+    fetchChildNum acct = .ok (r.inNum, r.exNum) := by
+  simp [fetchChildNum, hrep.ex, hrep.inn, u32Of_u32Bytes_of_lt hrep.exLt, u32Of_u32Bytes_of_lt hrep.inLt, bind, Except.bind,
+    pure, Except.pure]
+
+/-- EXPORT carries the model's counters: whenever the byte-level `export` of a represented account bucket succeeds, the
+    hdPath counters of the file are the record's next indexes – the `ex` / `inn` fields of the keystore file of
+    `MW.Model.Keystore.exportKeystore` (what C04's restore theorems assume of a file) -/
+theorem export_counters (pkEnc : Pub → Bytes) (r : Rec Priv Pub) (acct pk : Bucket) (hrep : RecRep pkEnc r acct pk)
+    (purpose coin : Nat) (k : KeystoreJ) (h : exportKs acct purpose coin = .ok k) :
+    k.externalChildNum = r.exNum ∧ k.internalChildNum = r.inNum := by
+  have hc := fetchChildNum_of_rep pkEnc r acct pk hrep
+  unfold exportKs at h
+  simp only [hc, bind, Except.bind, pure, Except.pure] at h
+  split at h
+  · cases h
+  · split at h
+    · cases h
+    · split at h
+      · cases h
+      · simp only [Except.ok.injEq] at h
+        subst h
+        exact ⟨rfl, rfl⟩
+
 end MW.KsRefineMgr
